@@ -46,6 +46,7 @@ struct PropAgg {
     samples: Vec<J>,
     violations: Vec<J>,
     inconclusive: u64,
+    known_more: u64,
 }
 
 fn family_props(f: &str) -> &'static [&'static str] {
@@ -106,6 +107,7 @@ fn main() {
     let mut done = 0u64;
     let mut next = start;
     let mut stuck_json: Option<J> = None;
+    let mut known_written: std::collections::HashMap<(&'static str, &'static str), u32> = std::collections::HashMap::new();
     for i in start..start + count {
         if t0.elapsed().as_millis() as u64 > budget_ms {
             break;
@@ -158,6 +160,15 @@ fn main() {
             if !seen.insert((f.prop, f.known)) {
                 continue;
             }
+            if f.known.is_some() {
+                // known findings: keep a few witnesses per process, count the rest
+                let n = known_written.entry((f.prop, f.known.unwrap())).or_insert(0u32);
+                *n += 1;
+                if *n > 2 {
+                    agg.entry(f.prop).or_default().known_more += 1;
+                    continue;
+                }
+            }
             let msgs: Vec<J> = out.v.findings.iter().filter(|g| g.prop == f.prop && g.known == f.known).take(8).map(|g| J::s(g.msg.clone())).collect();
             let path = format!("{}/{}-{}-{}-{}{}.json", outdir, f.prop, family, seed, i, if f.known.is_some() { "-known" } else { "" });
             let mut kv = vec![
@@ -207,6 +218,7 @@ fn main() {
                 ("fps", J::A(fps.into_iter().map(|x| J::s(format!("{:x}", x))).collect())),
                 ("samples", J::A(a.samples.clone())),
                 ("violations", J::A(a.violations.clone())),
+                ("known_more", J::U(a.known_more)),
             ]),
         ));
     }
